@@ -105,10 +105,44 @@ impl MstOracle {
     }
 }
 
+/// maximum matching cardinality.  Two independent computations: brute force over edge subsets (when there
+/// are at most 12 distinct non-loop edges) and a dynamic programme over vertex subsets; where both run they must agree.
 pub fn max_matching_size(n: usize, edges: &[E]) -> usize {
     let mut es: Vec<E> = edges.iter().cloned().filter(|e| e.0 != e.1).map(|(a, b)| (a.min(b), a.max(b))).collect();
     es.sort();
     es.dedup();
+    let dp = max_matching_dp(n, &es);
+    if es.len() <= 12 {
+        let bf = max_matching_bruteforce(n, &es);
+        assert_eq!(bf, dp, "harness oracle self-check: matching oracles disagree on n={} {:?}", n, es);
+    }
+    dp
+}
+
+fn max_matching_dp(n: usize, es: &[E]) -> usize {
+    assert!(n <= 16);
+    let mut adj = vec![0u32; n];
+    for &(a, b) in es {
+        adj[a] |= 1 << b;
+        adj[b] |= 1 << a;
+    }
+    let mut f = vec![0u8; 1 << n];
+    for mask in 1u32..(1 << n) {
+        let v = mask.trailing_zeros() as usize;
+        let rest = mask & !(1 << v);
+        let mut best = f[rest as usize];
+        let mut cand = adj[v] & rest;
+        while cand != 0 {
+            let u = cand.trailing_zeros();
+            cand &= cand - 1;
+            best = best.max(1 + f[(rest & !(1 << u)) as usize]);
+        }
+        f[mask as usize] = best;
+    }
+    if n == 0 { 0 } else { f[(1usize << n) - 1] as usize }
+}
+
+fn max_matching_bruteforce(n: usize, es: &[E]) -> usize {
     let m = es.len();
     let mut best = 0;
     for mask in 0u32..(1 << m) {
@@ -160,6 +194,21 @@ macro_rules! c12_kruskal {
         let toi = $toi;
         let desc = || format!("{} encoding of {:?}", enc.name, abs);
         let r = $ctx.g("min_spanning_tree", &desc, || petgraph::algo::min_spanning_tree(g).take(2 * abs.n + abs.edges.len() + 4).collect::<Vec<_>>());
+        // the graph built from the stream with from_elements: the nodes in order with their weights and the stream's edges
+        if let Some(els) = &r {
+            use petgraph::data::FromElements;
+            use petgraph::visit::EdgeRef;
+            let built = $ctx.g("Graph::from_elements(min_spanning_tree)", &desc, || petgraph::graph::Graph::<_, _, petgraph::Undirected, u32>::from_elements(petgraph::algo::min_spanning_tree(g)));
+            if let Some(t) = built {
+                let sn: Vec<String> = els.iter().filter_map(|e| if let Element::Node { weight } = e { Some(format!("{:?}", weight)) } else { None }).collect();
+                let se: Vec<(usize, usize, String)> = els.iter().filter_map(|e| if let Element::Edge { source, target, weight } = e { Some((*source, *target, format!("{:?}", weight))) } else { None }).collect();
+                let tn: Vec<String> = t.node_weights().map(|w| format!("{:?}", w)).collect();
+                let te: Vec<(usize, usize, String)> = t.edge_references().map(|e| (e.source().index(), e.target().index(), format!("{:?}", e.weight()))).collect();
+                if sn != tn || se != te {
+                    $ctx.viol("Graph::from_elements(min_spanning_tree)", "the graph built from the element stream does not have the stream's nodes and edges", format!("{} -> stream nodes {:?} edges {:?}, built nodes {:?} edges {:?}", desc(), sn, se, tn, te));
+                }
+            }
+        }
         if let Some(els) = r {
             let expect: Vec<usize> = g.node_references().map(|r| enc.abs(r.id())).collect();
             let expw: Vec<String> = g.node_references().map(|r| format!("{:?}", r.weight())).collect();
